@@ -258,6 +258,98 @@ def r_register(ctx):
     ctx.floor("R-REGISTER", "accepting constructor paths", n, 150)
 
 
+def r_single_element_sort(ctx):
+    """util.sort_no_duplicates returns, besides the membership assertions, one conjunction over the n - 1 adjacent pairs: for a
+    list of one element (or none) that conjunction is the empty `And()`.  A constructor that sorts two lists (starts and ends) and
+    appends both assertion lists to itself then appends the same `And()` twice, and NamedUIDObject.append_z3_assertion refuses the
+    repeat with 'assertion And already added': a well-formed element over a single task / a worker with a single task is
+    rejected.  Decided per constructor: two sorted copies whose assertion lists are both appended, and no rejection of lists
+    shorter than 2 before them."""
+    proj = ctx.project
+    n = 0
+    # does the sorter return a conjunction over the adjacent pairs on a path where there may be no pair at all?
+    empty_and_possible = False
+    for r in runs_of(ctx, Entry("func", module="util", name="sort_no_duplicates")):
+        if r.rejected or not (isinstance(r.retval, tuple) and r.retval[0] == "tuple" and len(r.retval[1]) == 2):
+            continue
+        cs = r.retval[1][1]
+        has_chain = cs[0] == "list" and any(is_app(x, "And") for x in cs[1])
+        at_least_two = any("len(" in k_ and ((">= 2" in k_ or "> 1" in k_) and v_ is True or ("< 2" in k_ or "<= 1" in k_) and v_ is False)
+                           for k_, v_ in r.decisions)
+        if has_chain and not at_least_two:
+            empty_and_possible = True
+    if not empty_and_possible:
+        ctx.ok("R-SINGLE-SORT", "util.sort_no_duplicates returns no conjunction over the pairs when there is no pair (fewer than 2 values)")
+    for base in ("Constraint", "Indicator"):
+        for c in proj.subclasses(base):
+            runs = [r for r in runs_of(ctx, Entry("init", cls=c.name, opaque=OPAQUE)) if not r.rejected]
+            hit = None
+            if not empty_and_possible:
+                n += 1 if runs else 0
+                continue
+            for r in runs:
+                lists = set()
+                for e in r.emissions:
+                    if e.owner != SELF or not e.loops:
+                        continue
+                    for s_ in subterms(e.loops[-1][3]):
+                        if isinstance(s_, tuple) and s_ and s_[0] == "call" and s_[1].split(".")[-1] == "sort_no_duplicates":
+                            lists.add(show(norm(s_))[:120])
+                if len(lists) >= 2:
+                    short_rejected = any("at least 2" in ev.data.get("src", "") or "len(" in show(And(*ev.guards)) and "2" in show(And(*ev.guards))
+                                         for ev in r.events_of("raise") if ev.guards)
+                    if not short_rejected:
+                        hit = sorted(lists)
+            if not runs:
+                continue
+            n += 1
+            if hit:
+                ctx.violation("R-SINGLE-SORT", f"{c.name}.__init__", "two sorted copies, single element",
+                              f"{c.name} appends the assertion lists of two sorted copies ({hit[0][:60]} ...): over a single element both "
+                              f"end with the same empty conjunction `And()` and the second append raises 'assertion And already added' - a "
+                              f"well-formed {c.name} over one task (a worker with one task) is rejected", first_line(proj, c.name))
+    ctx.floor("R-SINGLE-SORT", "constraint / indicator classes", n, 40)
+
+
+def r_register_atomic(ctx):
+    """'an ill-formed element is rejected' has to mean that nothing of it stays behind: a constructor that puts the element into
+    the problem's registry and raises afterwards leaves a half-built element registered - its name is taken (the corrected,
+    well-formed call is then refused as a duplicate) and the solver drains whatever it asserted before failing.  Decided per
+    self-registering class: on no constructor path does a raise come, in execution order, after the registry store."""
+    proj = ctx.project
+    n = 0
+    found = {}
+    for base, reg in ELEMENT_REG:
+        for c in proj.subclasses(base, strict=False):
+            if c.name in ("Task", "Constraint", "ResourceConstraint", "TaskConstraint", "IndicatorConstraint", "TaskGroup"):
+                continue
+            runs = runs_of(ctx, Entry("init", cls=c.name, opaque=OPAQUE))
+            for r in runs:
+                n += 1
+                evs = list(r.events)
+                st = [i for i, ev in enumerate(evs) if ev.kind == "store" and ev.data["container"] == A(AP, reg) and ev.data["value"] == SELF]
+                if not st:
+                    continue
+                # (a raise on the complementary branch of the store's own test - `if new: store ... else: raise` - is not "after" it)
+                sg = {show(norm(g_)) for g_ in evs[st[0]].guards}
+                def excluded(ev):
+                    return any(show(norm(app("not", g_))) in sg or (is_app(norm(g_), "not") and show(norm(g_)[2]) in sg) for g_ in ev.guards)
+                later = [ev for ev in evs[st[0] + 1:] if ev.kind == "raise" and not excluded(ev)]
+                sites = [(ev.site.func, ev.data.get("src", "")[:70]) for ev in later]
+                if r.rejected and r.reject_info is not None:
+                    sites.append((str(r.reject_info.get("site", "")), str(r.reject_info.get("src", ""))[:70]))
+                if sites:
+                    found.setdefault(c.name, sites[0])
+    for cname, (fn_, src) in sorted(found.items()):
+        ctx.violation("R-REGISTER-ATOMIC", f"{cname}.__init__", "registered before a rejection",
+                      f"{cname} is put into the problem's registry before `{src}` can raise ({fn_}): the rejected element keeps its name "
+                      f"(the corrected call is refused with 'already exists') and what it asserted before failing is drained by the solver",
+                      first_line(proj, cname))
+    ctx.floor("R-REGISTER-ATOMIC", "constructor paths", n, 150)
+    if not found:
+        ctx.ok("R-REGISTER-ATOMIC", "no constructor raises after registering the element")
+
+
 def r_raise(ctx):
     proj = ctx.project
     # (e) no active problem: every element constructor tests or dereferences the global before it returns
@@ -361,7 +453,7 @@ def r_raise(ctx):
             ctx.ok("R-SIBLING", f"{cname}: weight is optional")
 
 
-RULES = [r_field_table, r_dup_name, r_register, r_raise,
+RULES = [r_field_table, r_dup_name, r_register, r_register_atomic, r_single_element_sort, r_raise,
          lambda ctx: resource_constraints.r_attr(ctx, modules=None),
          optional_rules.r_opt_rules, logic_rules.r_force_apply, resource_rules.r_select_workers,
          resource_constraints.r_union_exh_raise]
